@@ -2,13 +2,15 @@
 C05 — a failing task or dying worker-side process fails the run, never hangs it; afterwards no
 child process (and, unless the shm server was SIGKILLed, no shared-memory segment) is left behind.
 
-Theorems over `Model/Failure.lean`, instantiated with the table generated from the source
-(`Gen/Health.lean`). What is NOT proved here (sampled by the real-cluster fault runs instead): that
+Theorems over `Model/Failure.lean`, instantiated with the tables generated from the source
+(`Gen/Health.lean`: Executor.healthcheck; `Gen/ShmEntry.lean`: the ways out of the shm server's request loop and
+whether `entrypoint` runs the exit handler on each of them). What is NOT proved here (sampled by the real-cluster fault runs instead): that
 the OS really delivers exit codes / removes processes and /dev/shm files, wall-clock bounds, and the
 bounded delivery of an acknowledged message (C06).
 -/
 import EkwVerif.Model.Failure
 import EkwVerif.Gen.Health
+import EkwVerif.Gen.ShmEntry
 
 namespace EkwVerif.C05
 open EkwVerif.Failure
@@ -32,7 +34,11 @@ def HasFailure (l : List CMsg) : Prop := ∃ m ∈ l, m.isFailure = true
 /-- stage 0 of the propagation: the failure is visible to a live executor -/
 def AtExecutor (s : Sys) : Prop := s.exec.terminating = false ∧ ExecFailurePending s.exec s.execInbox
 
-def Ended (s : Sys) : Prop := s.ctrl.status ≠ .running
+/-- the controller's loop is not waiting any more (proof-internal; the property-level notion is `Ended`) -/
+def NotRunning (s : Sys) : Prop := s.ctrl.status ≠ .running
+
+/-- `run` has RETURNED or RAISED. `CtrlStatus.starved` (the loop would poll for ever) is deliberately NOT an end. -/
+def Ended (s : Sys) : Prop := s.ctrl.status = .endedOk ∨ s.ctrl.status = .endedErr
 
 /-- a schedule in which, in this order, the executor ticks, the network delivers, the controller receives
 (anything may happen before, between and after) -/
@@ -42,6 +48,57 @@ def Fair (sched : List Step) : Prop :=
 namespace Aux
 
 theorem health_all_raise : Gen.health_all_raise = true := by decide
+
+/-- the generated fact about cascade/shm/server.py: `entrypoint` runs `server.atexit` on EVERY path out of
+`server.start()` (normal return and exception), the handler unlinks, ShutdownCommand leaves the loop, SIGTERM/SIGINT
+are handled by the exit handler -/
+theorem shm_entry_clean : Gen.shm_entry_clean = true := by decide
+
+theorem entryClean_spec (e : ShmEntry) (h : entryClean e = true) :
+    e.cleansOn .returned = true ∧ e.cleansOn .raised = true ∧ e.shutdownBreaks = true ∧
+    e.sigtermHandler = true ∧ e.sigintHandler = true ∧ e.atexitUnlinks = true := by
+  simp only [entryClean, List.all_cons, List.all_nil, Bool.and_true, Bool.and_eq_true] at h
+  obtain ⟨⟨⟨⟨h1, h2⟩, h3⟩, h4⟩, h5⟩ := h
+  refine ⟨h1, h2, h3, h4, h5, ?_⟩
+  simp only [ShmEntry.cleansOn, Bool.and_eq_true] at h1
+  exact h1.1
+
+/-- with a clean table, every death of the shm server except SIGKILL leaves no segment, at once -/
+theorem shmDies_segments (e : ShmEntry) (h : entryClean e = true) (st : ExecSt) (how : ShmDeath) (hk : how ≠ .sigkill) :
+    (shmDies e st how).segments = [] := by
+  obtain ⟨_, h2, _, h4, h5, h6⟩ := entryClean_spec e h
+  cases how with
+  | sigterm => simp [shmDies, shmSignalled, h4, h6]
+  | sigint => simp [shmDies, shmSignalled, h5, h6]
+  | sigkill => exact absurd rfl hk
+  | loopException => simp [shmDies, h2]
+
+theorem shmDies_dead (e : ShmEntry) (st : ExecSt) (how : ShmDeath) : (shmDies e st how).shm.isSome = true := by
+  cases how <;> simp [shmDies, shmSignalled] <;> split <;> rfl
+
+theorem shmDies_terminating (e : ShmEntry) (st : ExecSt) (how : ShmDeath) : (shmDies e st how).terminating = st.terminating := by
+  cases how <;> simp [shmDies, shmSignalled] <;> split <;> rfl
+
+theorem terminateWith_terminating (os : Os) (st : ExecSt) : (terminateWith os st).2.terminating = true := by
+  unfold terminateWith
+  by_cases ht : st.terminating = true <;> simp [ht]
+
+theorem terminateWith_of_terminating (os : Os) (s : ExecSt) (h : s.terminating = true) : terminateWith os s = ([], s) := by
+  simp [terminateWith, h]
+
+/-- a shm server that has already exited is left alone: its segments are what they are -/
+theorem terminateWith_dead_shm_segments (os : Os) (st : ExecSt) (h : st.shm.isSome = true) :
+    (terminateWith os st).2.segments = st.segments := by
+  unfold terminateWith
+  by_cases ht : st.terminating = true
+  · simp [ht]
+  · cases hs : st.shm with
+    | none => rw [hs] at h; cases h
+    | some c => simp [ht, termShmWith, hs]
+
+theorem terminate_keeps_segments_nil (os : Os) (st : ExecSt) (hd : st.shm.isSome = true) (h : st.segments = []) :
+    (terminateWith os st).2.segments = [] := by
+  rw [terminateWith_dead_shm_segments os st hd]; exact h
 
 theorem holds_none (p : FailPred) : p.holds none = false := by cases p <;> rfl
 
@@ -167,8 +224,7 @@ theorem processMsgs_spec (st : ExecSt) : ∀ (inbox : List EMsg),
     | executorShutdown =>
       simp only [processMsgs]
       refine ⟨List.mem_cons_self .., ?_⟩
-      unfold terminate
-      by_cases ht : st.terminating = true <;> simp [ht]
+      exact terminateWith_terminating posix st
     | taskFailure w =>
       simp only [processMsgs]
       generalize processMsgs st rest = r at ih ⊢
@@ -227,16 +283,97 @@ theorem tick_reports {t : HealthTable} (hall : allRaise t = true) (st : ExecSt) 
 theorem tick_terminates_on_dead_child {t : HealthTable} (hall : allRaise t = true) (st : ExecSt)
     (hnt : st.terminating = false) (hd : DeadChild st) : (tick t st []).1.terminating = true := by
   have hh := detects_of_allRaise hall st hd
-  simp [tick, hnt, processMsgs, hh, terminate]
+  simp [tick, hnt, processMsgs, hh, terminate, terminateWith_terminating]
+
+/-! ### the iteration with its environment inputs (heartbeat due, retry budget exhausted) -/
+
+theorem tickEnv_plain (t : HealthTable) (st : ExecSt) (inbox : List EMsg) : tickEnv t st inbox false false = tick t st inbox := by
+  unfold tickEnv tick
+  by_cases ht : st.terminating = true
+  · simp [ht]
+  · simp only [ht, Bool.false_eq_true, if_false]
+    cases hs : (processMsgs st inbox).2.2 <;> simp <;> split <;> simp_all
+
+/-- whatever the environment inputs: a live executor that sees a failure reports it in this very iteration -/
+theorem tickEnv_reports {t : HealthTable} (hall : allRaise t = true) (st : ExecSt) (inbox : List EMsg) (hb rt : Bool)
+    (hnt : st.terminating = false) (hp : ExecFailurePending st inbox) :
+    HasFailure ((tickEnv t st inbox hb rt).2.filterMap EOut.ctrl?) := by
+  have spec := processMsgs_spec st inbox
+  unfold tickEnv
+  simp only [hnt, Bool.false_eq_true, if_false]
+  cases hs : (processMsgs st inbox).2.2 with
+  | raised =>
+    exact ⟨.executorFailure st.host, mem_ctrl_of_mem (by simp), rfl⟩
+  | broke =>
+    rw [hs] at spec
+    have hin := spec.1
+    simp only
+    split
+    · exact ⟨.executorExit st.host, mem_ctrl_of_mem (by simp [hin]), rfl⟩
+    · split
+      · exact ⟨.executorExit st.host, mem_ctrl_of_mem (by simp [hin]), rfl⟩
+      · exact ⟨.executorExit st.host, mem_ctrl_of_mem (by simp [hin]), rfl⟩
+  | done =>
+    rw [hs] at spec
+    obtain ⟨hst, htf⟩ := spec
+    simp only
+    rcases hp with htask | hdead
+    · have hin := htf htask
+      split
+      · exact ⟨.taskFailure, mem_ctrl_of_mem (by simp [hin]), rfl⟩
+      · split
+        · exact ⟨.taskFailure, mem_ctrl_of_mem (by simp [hin]), rfl⟩
+        · exact ⟨.taskFailure, mem_ctrl_of_mem (by simp [hin]), rfl⟩
+    · have hh : (healthcheck t (processMsgs st inbox).1).isSome = true := by
+        rw [hst]; exact detects_of_allRaise hall st hdead
+      rw [hst] at hh ⊢
+      simp only [hnt, hh, Bool.not_false, Bool.and_self, if_true]
+      exact ⟨.executorFailure st.host, mem_ctrl_of_mem (by simp), rfl⟩
+
+/-- messages a healthy executor handles without any effect on its own state -/
+def Benign (st : ExecSt) : EMsg → Prop
+  | .ack | .purge | .published _ _ => True
+  | .taskSequence w => workerAlive st w = true
+  | _ => False
+
+theorem processMsgs_benign (st : ExecSt) : ∀ (inbox : List EMsg), (∀ m ∈ inbox, Benign st m) →
+    (processMsgs st inbox).1 = st ∧ (processMsgs st inbox).2.2 = .done ∧
+    ∀ m ∈ (processMsgs st inbox).2.1.filterMap EOut.ctrl?, m.isFailure = false
+  | [], _ => by simp [processMsgs]
+  | m :: rest, h => by
+    have ih := processMsgs_benign st rest (fun x hx => h x (List.mem_cons_of_mem _ hx))
+    have hm := h m (List.mem_cons_self ..)
+    cases m with
+    | taskSequence w =>
+      have hw : workerAlive st w = true := hm
+      simp only [processMsgs, hw, if_true]
+      refine ⟨ih.1, ih.2.1, ?_⟩
+      intro x hx
+      simp only [List.filterMap_cons, EOut.ctrl?] at hx
+      exact ih.2.2 x hx
+    | ack => simpa [processMsgs] using ih
+    | purge => simpa [processMsgs] using ih
+    | published ds c =>
+      simp only [processMsgs]
+      refine ⟨ih.1, ih.2.1, ?_⟩
+      intro x hx
+      simp only [List.filterMap_cons, EOut.ctrl?, List.mem_cons] at hx
+      rcases hx with rfl | hx
+      · rfl
+      · exact ih.2.2 x hx
+    | executorShutdown => exact absurd hm (by simp [Benign])
+    | taskFailure w => exact absurd hm (by simp [Benign])
+    | transmitFailure => exact absurd hm (by simp [Benign])
+    | other => exact absurd hm (by simp [Benign])
 
 /-! ### propagation stages -/
 
 def InNet (s : Sys) : Prop := HasFailure s.net
 def AtCtrl (s : Sys) : Prop := HasFailure s.ctrlInbox
 
-def Stage0 (s : Sys) : Prop := Ended s ∨ AtExecutor s ∨ InNet s ∨ AtCtrl s
-def Stage1 (s : Sys) : Prop := Ended s ∨ InNet s ∨ AtCtrl s
-def Stage2 (s : Sys) : Prop := Ended s ∨ AtCtrl s
+def Stage0 (s : Sys) : Prop := NotRunning s ∨ AtExecutor s ∨ InNet s ∨ AtCtrl s
+def Stage1 (s : Sys) : Prop := NotRunning s ∨ InNet s ∨ AtCtrl s
+def Stage2 (s : Sys) : Prop := NotRunning s ∨ AtCtrl s
 
 theorem hasFailure_append_left {a b : List CMsg} (h : HasFailure a) : HasFailure (a ++ b) := by
   obtain ⟨m, hm, hf⟩ := h; exact ⟨m, List.mem_append_left _ hm, hf⟩
@@ -256,7 +393,7 @@ theorem execTick_stage0 {t : HealthTable} (hall : allRaise t = true) (s : Sys) (
   obtain ⟨hc, hi, _⟩ := execTick_ctrl t s
   obtain ⟨extra, hn⟩ := execTick_net t s
   rcases h with he | ⟨hnt, hp⟩ | hn' | hc'
-  · exact Or.inl (by unfold Ended; rw [hc]; exact he)
+  · exact Or.inl (by unfold NotRunning; rw [hc]; exact he)
   · refine Or.inr (Or.inl ?_)
     have := tick_reports hall s.exec s.execInbox hnt hp
     unfold InNet execTick
@@ -269,14 +406,14 @@ theorem execTick_stage1 (t : HealthTable) (s : Sys) (h : Stage1 s) : Stage1 (exe
   obtain ⟨hc, hi, _⟩ := execTick_ctrl t s
   obtain ⟨extra, hn⟩ := execTick_net t s
   rcases h with he | hn' | hc'
-  · exact Or.inl (by unfold Ended; rw [hc]; exact he)
+  · exact Or.inl (by unfold NotRunning; rw [hc]; exact he)
   · exact Or.inr (Or.inl (by unfold InNet; rw [hn]; exact hasFailure_append_left hn'))
   · exact Or.inr (Or.inr (by unfold AtCtrl; rw [hi]; exact hc'))
 
 theorem execTick_stage2 (t : HealthTable) (s : Sys) (h : Stage2 s) : Stage2 (execTick t s) := by
   obtain ⟨hc, hi, _⟩ := execTick_ctrl t s
   rcases h with he | hc'
-  · exact Or.inl (by unfold Ended; rw [hc]; exact he)
+  · exact Or.inl (by unfold NotRunning; rw [hc]; exact he)
   · exact Or.inr (by unfold AtCtrl; rw [hi]; exact hc')
 
 theorem deliver_stage0 (s : Sys) (h : Stage0 s) : Stage0 (deliver s) := by
@@ -327,11 +464,11 @@ theorem ctrlStep_cases (s : Sys) :
   | endedErr => left; simp
   | starved => left; simp
 
-theorem ctrlStep_stage2 (s : Sys) (h : Stage2 s) : Ended (ctrlStep s) := by
+theorem ctrlStep_stage2 (s : Sys) (h : Stage2 s) : NotRunning (ctrlStep s) := by
   rcases ctrlStep_cases s with ⟨hne, heq⟩ | ⟨_, _, hok⟩ | ⟨_, _, _, herr, _⟩ | ⟨hrun, _, hr, _⟩
   · rw [heq]; exact hne
-  · unfold Ended; rw [hok]; decide
-  · unfold Ended; rw [herr]; decide
+  · unfold NotRunning; rw [hok]; decide
+  · unfold NotRunning; rw [herr]; decide
   · rcases h with he | hc
     · exact absurd hrun he
     · rw [scan_reason hc] at hr; cases hr
@@ -339,8 +476,8 @@ theorem ctrlStep_stage2 (s : Sys) (h : Stage2 s) : Ended (ctrlStep s) := by
 theorem ctrlStep_stage0 (s : Sys) (h : Stage0 s) : Stage0 (ctrlStep s) := by
   rcases ctrlStep_cases s with ⟨_, heq⟩ | ⟨_, _, hok⟩ | ⟨_, _, _, herr, _⟩ | ⟨hrun, _, hr, he, hi, hn⟩
   · rw [heq]; exact h
-  · left; unfold Ended; rw [hok]; decide
-  · left; unfold Ended; rw [herr]; decide
+  · left; unfold NotRunning; rw [hok]; decide
+  · left; unfold NotRunning; rw [herr]; decide
   · rcases h with hend | ⟨hnt, hp⟩ | hnet | hc
     · exact absurd hrun hend
     · exact Or.inr (Or.inl ⟨by rw [he]; exact hnt, by rw [he, hi]; exact hp⟩)
@@ -350,8 +487,8 @@ theorem ctrlStep_stage0 (s : Sys) (h : Stage0 s) : Stage0 (ctrlStep s) := by
 theorem ctrlStep_stage1 (s : Sys) (h : Stage1 s) : Stage1 (ctrlStep s) := by
   rcases ctrlStep_cases s with ⟨_, heq⟩ | ⟨_, _, hok⟩ | ⟨_, _, _, herr, _⟩ | ⟨hrun, _, hr, _, _, hn⟩
   · rw [heq]; exact h
-  · left; unfold Ended; rw [hok]; decide
-  · left; unfold Ended; rw [herr]; decide
+  · left; unfold NotRunning; rw [hok]; decide
+  · left; unfold NotRunning; rw [herr]; decide
   · rcases h with hend | hnet | hc
     · exact absurd hrun hend
     · exact Or.inr (Or.inl (by unfold InNet; rw [hn]; exact hnet))
@@ -394,12 +531,12 @@ theorem sched_stage1 (t : HealthTable) : ∀ (l : List Step) (s : Sys), Stage1 s
 theorem sched_stage2 (t : HealthTable) : ∀ (l : List Step) (s : Sys), Stage2 s → Stage2 (runSchedule t s l)
   | [], _, h => h
   | x :: xs, s, h => sched_stage2 t xs (step t s x) (step_stage2 t s x h)
-theorem sched_ended (t : HealthTable) : ∀ (l : List Step) (s : Sys), Ended s → Ended (runSchedule t s l)
+theorem sched_ended (t : HealthTable) : ∀ (l : List Step) (s : Sys), NotRunning s → NotRunning (runSchedule t s l)
   | [], _, h => h
   | x :: xs, s, h => by
     apply sched_ended t xs (step t s x)
     cases x
-    · unfold Ended step; rw [(execTick_ctrl t s).1]; exact h
+    · unfold NotRunning step; rw [(execTick_ctrl t s).1]; exact h
     · exact h
     · exact ctrlStep_stage2 s (Or.inl h)
 
@@ -408,7 +545,7 @@ theorem runSchedule_append (t : HealthTable) (s : Sys) (a b : List Step) :
   simp [runSchedule, List.foldl_append]
 
 theorem never_hangs_of_allRaise {t : HealthTable} (hall : allRaise t = true) (s : Sys) (sched : List Step)
-    (hf : Fair sched) (h0 : Stage0 s) : Ended (runSchedule t s sched) := by
+    (hf : Fair sched) (h0 : Stage0 s) : NotRunning (runSchedule t s sched) := by
   obtain ⟨a, b, c, d, rfl⟩ := hf
   simp only [runSchedule_append]
   apply sched_ended
@@ -547,9 +684,57 @@ theorem run_finally : ∀ (fuel : Nat) (c : Ctrl) (stream : List (List CMsg)), c
       simp only [ha, Bool.not_false, if_true, doShutdown]
       omega
 
+/-! ### `starved` is not an end, and is never produced -/
+
+theorem ctrlStep_status (s : Sys) :
+    (ctrlStep s).ctrl.status = s.ctrl.status ∨ (ctrlStep s).ctrl.status = .endedOk ∨ (ctrlStep s).ctrl.status = .endedErr := by
+  unfold ctrlStep
+  cases hs : s.ctrl.status with
+  | running =>
+    simp only
+    by_cases ha : awaitable s.ctrl = true
+    · by_cases hr : (scanBatch s.ctrl.hosts s.ctrlInbox).reason = true
+      · right; right; simp [ha, hr, endRun]
+      · left
+        simp only [ha, hr, Bool.not_true, Bool.false_eq_true, if_false]
+        rw [(notify_requested _ _).2]
+        exact hs
+    · right; left
+      simp only [Bool.not_eq_true] at ha
+      simp [ha, endRun]
+  | endedOk => left; simp [hs]
+  | endedErr => left; simp [hs]
+  | starved => left; simp [hs]
+
+/-- `starved` is never produced by a step: a system that is not starved never becomes so -/
+theorem step_notStarved (t : HealthTable) (s : Sys) (st : Step) (h : s.ctrl.status ≠ .starved) : (step t s st).ctrl.status ≠ .starved := by
+  cases st
+  · show (execTick t s).ctrl.status ≠ _
+    rw [(execTick_ctrl t s).1]; exact h
+  · exact h
+  · show (ctrlStep s).ctrl.status ≠ _
+    rcases ctrlStep_status s with h1 | h1 | h1 <;> rw [h1]
+    · exact h
+    · decide
+    · decide
+
+theorem sched_notStarved (t : HealthTable) : ∀ (l : List Step) (s : Sys), s.ctrl.status ≠ .starved → (runSchedule t s l).ctrl.status ≠ .starved
+  | [], _, h => h
+  | x :: xs, s, h => sched_notStarved t xs (step t s x) (step_notStarved t s x h)
+
+theorem ended_of {s : Sys} (h1 : NotRunning s) (h2 : s.ctrl.status ≠ .starved) : Ended s := by
+  unfold NotRunning at h1
+  unfold Ended
+  cases hs : s.ctrl.status with
+  | running => exact absurd hs h1
+  | endedOk => exact Or.inl rfl
+  | endedErr => exact Or.inr rfl
+  | starved => exact absurd hs h2
+
 /-! ### teardown -/
 
-theorem termWorker_dead (p : String × Handle) : (termWorker p).2.2 = .notStarted ∨ ∃ c s, (termWorker p).2.2 = .proc (some c) s := by
+theorem termWorker_dead (os : Os) (hk : os.killed.isSome = true) (p : String × Handle) :
+    (termWorkerWith os p).2.2 = .notStarted ∨ ∃ c s, (termWorkerWith os p).2.2 = .proc (some c) s := by
   obtain ⟨w, h⟩ := p
   cases h with
   | notStarted => left; rfl
@@ -557,14 +742,42 @@ theorem termWorker_dead (p : String × Handle) : (termWorker p).2.2 = .notStarte
     right
     cases e with
     | some c => exact ⟨c, s, rfl⟩
-    | none => cases s <;> simp [termWorker]
+    | none =>
+      simp only [termWorkerWith]
+      cases hw : os.workerExit s with
+      | some c => exact ⟨c, s, rfl⟩
+      | none =>
+        cases hkk : os.killed with
+        | none => rw [hkk] at hk; cases hk
+        | some c => exact ⟨c, s, rfl⟩
 
-theorem termWorker_acts (w : String) (e : Option Int) (s : Bool) :
-    TermAct.workerShutdown w ∈ (termWorker (w, .proc e s)).1 ∧ TermAct.workerJoin w ∈ (termWorker (w, .proc e s)).1 ∧
-    (e = none → s = true → TermAct.workerKill w ∈ (termWorker (w, .proc e s)).1) := by
+theorem termWorker_acts (os : Os) (w : String) (e : Option Int) (s : Bool) :
+    TermAct.workerShutdown w ∈ (termWorkerWith os (w, .proc e s)).1 ∧ TermAct.workerJoin w ∈ (termWorkerWith os (w, .proc e s)).1 ∧
+    (e = none → os.workerExit s = none → TermAct.workerKill w ∈ (termWorkerWith os (w, .proc e s)).1) := by
   cases e with
-  | some c => simp [termWorker]
-  | none => cases s <;> simp [termWorker]
+  | some c => simp [termWorkerWith]
+  | none =>
+    simp only [termWorkerWith]
+    cases hw : os.workerExit s <;> simp
+
+theorem termShm_spec (os : Os) (hk : os.killed.isSome = true) (st : ExecSt) :
+    (termShmWith os st).2.1.isSome = true ∧
+    (st.shm = none → TermAct.shmShutdown ∈ (termShmWith os st).1 ∧
+      ((os.shmReply st.shmMode = false ∨ (os.shmExit st.shmMode st.segments).2 = none) → TermAct.shmKill ∈ (termShmWith os st).1)) := by
+  unfold termShmWith
+  cases hs : st.shm with
+  | some c => simp
+  | none =>
+    by_cases hr : os.shmReply st.shmMode = true
+    · cases he : (os.shmExit st.shmMode st.segments).2 with
+      | some c => simp [hr, he]
+      | none => simp [hr, he, hk]
+    · simp [hr, hk]
+
+theorem termData_spec (os : Os) (hk : os.killed.isSome = true) (st : ExecSt) :
+    (termDataWith os st).2.isSome = true ∧ (st.data = none → TermAct.dataKill ∈ (termDataWith os st).1) := by
+  unfold termDataWith
+  cases hs : st.data <;> simp [hk]
 
 end Aux
 
@@ -597,6 +810,66 @@ theorem c05_tick_reports (st : ExecSt) (inbox : List EMsg) (hnt : st.terminating
     HasFailure ((tick Gen.healthTable st inbox).2.filterMap EOut.ctrl?) :=
   Aux.tick_reports Aux.health_all_raise st inbox hnt hp
 
+/-- RECV_LOOP with its environment. The same for `tickEnv`, i.e. whether or not the heartbeat is due and whether or
+not `sender.maybe_retry()` raises in this iteration; `tick` is the instance with both inputs false. -/
+theorem c05_tick_env_reports (st : ExecSt) (inbox : List EMsg) (hb rt : Bool) (hnt : st.terminating = false)
+    (hp : ExecFailurePending st inbox) :
+    HasFailure ((tickEnv Gen.healthTable st inbox hb rt).2.filterMap EOut.ctrl?) ∧
+    tickEnv Gen.healthTable st inbox false false = tick Gen.healthTable st inbox :=
+  ⟨Aux.tickEnv_reports Aux.health_all_raise st inbox hb rt hnt hp, Aux.tickEnv_plain _ st inbox⟩
+
+/-- NO SPURIOUS FAILURE (loop level). An executor whose children are all alive, that receives only acks, purges,
+publications and task sequences for live workers, and whose sender has not run out of retries, sends no failure-class
+message and stays as it is — heartbeat due or not. The ONLY way a healthy executor fails by itself is the retry budget
+(`c05_retry_exhausted_fails`). -/
+theorem c05_no_spurious_failure (st : ExecSt) (inbox : List EMsg) (hb : Bool) (ha : AllAlive st)
+    (hnt : st.terminating = false) (hben : ∀ m ∈ inbox, Aux.Benign st m) :
+    (tickEnv Gen.healthTable st inbox hb false).1 = st ∧
+    ∀ m ∈ (tickEnv Gen.healthTable st inbox hb false).2.filterMap EOut.ctrl?, m.isFailure = false := by
+  obtain ⟨h1, h2, h3⟩ := Aux.processMsgs_benign st inbox hben
+  have hh : healthcheck Gen.healthTable st = none := c05_detects_only st ha
+  unfold tickEnv
+  simp only [hnt, Bool.false_eq_true, if_false, h2, h1, hh, Option.isSome_none, Bool.and_false, Bool.not_false, Bool.true_and]
+  refine ⟨trivial, ?_⟩
+  intro m hm
+  rw [List.filterMap_append, List.mem_append] at hm
+  rcases hm with hm | hm
+  · exact h3 m hm
+  · by_cases hbb : hb = true
+    · simp [hbb, EOut.ctrl?] at hm; subst hm; rfl
+    · simp [hbb] at hm
+
+/-- RETRY BUDGET. When `sender.maybe_retry()` raises (a message to the controller was not acknowledged within the
+retry budget) the executor reports `ExecutorFailure` and tears itself down. -/
+theorem c05_retry_exhausted_fails (st : ExecSt) (inbox : List EMsg) (hb : Bool) (hnt : st.terminating = false) :
+    HasFailure ((tickEnv Gen.healthTable st inbox hb true).2.filterMap EOut.ctrl?) ∧
+    (tickEnv Gen.healthTable st inbox hb true).1.terminating = true := by
+  unfold tickEnv
+  simp only [hnt, Bool.false_eq_true, if_false]
+  have ht : ∀ x, (terminate x).2.terminating = true := fun x => Aux.terminateWith_terminating posix x
+  cases hs : (processMsgs st inbox).2.2 <;> simp only <;> (try split) <;>
+    exact ⟨⟨.executorFailure st.host, Aux.mem_ctrl_of_mem (by simp), rfl⟩, ht _⟩
+
+/-- TASK CRASH ⇒ REPORT. Whatever way a task body ends other than by returning — an `Exception`, `sys.exit(n)` for any
+n (0 included), another `BaseException`, a signal — once the messages the worker sent before are in the executor's queue
+and the worker's handle shows what became of the process, the executor's next iteration sends a failure-class message:
+either the TaskFailure the worker produced, or an ExecutorFailure because the healthcheck sees the exit code. -/
+theorem c05_task_crash_reported (st : ExecSt) (w : String) (stuck : Bool) (pubs inbox : List EMsg) (o : TaskOutcome)
+    (ho : o ≠ .returns) (hnt : st.terminating = false) (hw : (w, Handle.proc none stuck) ∈ st.workers) :
+    let r := workerBody w pubs o
+    let st' : ExecSt := { st with workers := st.workers.map (fun p => if p.1 = w then (w, .proc r.exit stuck) else p) }
+    HasFailure ((tick Gen.healthTable st' (inbox ++ r.msgs)).2.filterMap EOut.ctrl?) := by
+  intro r st'
+  apply c05_tick_reports st' (inbox ++ r.msgs) hnt
+  have hmem : (w, Handle.proc r.exit stuck) ∈ st'.workers :=
+    List.mem_map.2 ⟨(w, .proc none stuck), hw, by simp⟩
+  cases o with
+  | returns => exact absurd rfl ho
+  | raisesException => exact Or.inl ⟨w, List.mem_append_right _ (by simp [r, workerBody])⟩
+  | systemExit c => exact Or.inr (Or.inl ⟨w, _, hmem, Or.inr ⟨c, stuck, rfl⟩⟩)
+  | baseException => exact Or.inr (Or.inl ⟨w, _, hmem, Or.inr ⟨1, stuck, rfl⟩⟩)
+  | killed sg => exact Or.inr (Or.inl ⟨w, _, hmem, Or.inr ⟨-(sg : Int), stuck, rfl⟩⟩)
+
 /-- BRIDGE. A batch containing a failure-class message makes `recv_events` shut down and raise — whatever
 else is in the batch (events do not mask it), and `ExecutorShutdown` goes to every host that has not
 itself just reported its exit. -/
@@ -621,18 +894,31 @@ theorem c05_run_finally (fuel : Nat) (c : Ctrl) (stream : List (List CMsg)) (hru
   unfold runLoop
   simp only [ha, Bool.not_true, Bool.false_eq_true, if_false, hre]
 
-/-- BOUNDED (three rounds). From any state in which the controller is running and a live executor sees a
-raised task or a dead child: after one executor iteration, one delivery and one controller iteration the
-run HAS ENDED; it has ended with an error — after at least one `bridge.shutdown()` — whenever the
-controller was still waiting for a task or a requested output. -/
-theorem c05_bounded (s : Sys) (hrun : s.ctrl.status = .running) (hp : AtExecutor s) :
+/-- the hypothesis of the bounded-time theorems, NAMED: they are stated for the steps `tick`, `deliver`, `ctrl` of
+Model/Failure.lean, in which `deliver` hands EVERYTHING in flight to the controller's listener — delivery is LOSSLESS.
+C06's theorems give this for a message whose sender stays alive and retries; the `ExecutorFailure`/`ExecutorExit` of an
+executor that then leaves its loop is sent once and not retried (known finding C06-exit-unretried), so for that
+message losslessness is an ASSUMPTION of C05, not a consequence of C06. What happens without it:
+`c05_bounded_full_fails` (Props/C05N.lean). -/
+def LosslessDelivery : Prop := ∀ s : Sys, (deliver s).ctrlInbox = s.ctrlInbox ++ s.net ∧ (deliver s).net = []
+
+theorem losslessDelivery_model : LosslessDelivery := fun _ => ⟨rfl, rfl⟩
+
+/-- BOUNDED (three rounds; partial: lossless delivery, one executor — any cluster shape: `c05_never_hangs_any_shape_partial`).
+From any state in which the controller is running and a live executor sees a raised task or a dead child: after one
+executor iteration, one (lossless) delivery and one controller iteration the run HAS ENDED (returned or raised — `starved`
+is not an end); it has ended with an error — after at least one `bridge.shutdown()` — whenever the controller was
+still waiting for a task or a requested output. -/
+theorem c05_bounded_partial (_hl : LosslessDelivery) (s : Sys) (hrun : s.ctrl.status = .running) (hp : AtExecutor s) :
     let s' := ctrlStep (deliver (execTick Gen.healthTable s))
-    s'.ctrl.status ≠ .running ∧
+    Ended s' ∧
     (awaitable s.ctrl = true → s'.ctrl.status = .endedErr ∧ s'.ctrl.shutdownCalls ≥ s.ctrl.shutdownCalls + 1) := by
   intro s'
   have h1 : Aux.Stage1 (execTick Gen.healthTable s) := Aux.execTick_stage0 Aux.health_all_raise s (Or.inr (Or.inl hp))
   have h2 : Aux.Stage2 (deliver (execTick Gen.healthTable s)) := Aux.deliver_stage1 _ h1
-  refine ⟨Aux.ctrlStep_stage2 _ h2, fun ha => ?_⟩
+  have hns : s'.ctrl.status ≠ .starved :=
+    Aux.sched_notStarved Gen.healthTable [.tick, .deliver, .ctrl] s (by rw [hrun]; decide)
+  refine ⟨Aux.ended_of (Aux.ctrlStep_stage2 _ h2) hns, fun ha => ?_⟩
   have hc : (deliver (execTick Gen.healthTable s)).ctrl = s.ctrl := (Aux.execTick_ctrl _ s).1
   have hat : Aux.AtCtrl (deliver (execTick Gen.healthTable s)) := by
     rcases h2 with he | h
@@ -646,13 +932,16 @@ theorem c05_bounded (s : Sys) (hrun : s.ctrl.status = .running) (hp : AtExecutor
     rw [hcalls, hc]; omega
   · rw [Aux.scan_reason hat] at hr; cases hr
 
-/-- NEVER HANGS (any fair schedule). From any state in which the failure is visible to a live executor, or
-its report is already in flight or in the controller's queue: after ANY schedule that contains, in
-this order, an executor iteration, a delivery and a controller iteration, `run` has ended. -/
-theorem c05_never_hangs (s : Sys) (sched : List Step) (hf : Fair sched)
+/-- NEVER HANGS (any fair schedule; partial: lossless delivery, one executor). From any state in which the controller
+is running (or has ended) and the failure is visible to a live executor, or its report is already in flight or in the
+controller's queue: after ANY schedule that contains, in this order, an executor iteration, a delivery and a controller
+iteration, `run` has ended — returned or raised; a controller that polls for ever (`starved`) does not count. -/
+theorem c05_never_hangs_partial (_hl : LosslessDelivery) (s : Sys) (sched : List Step) (hf : Fair sched)
+    (hns : s.ctrl.status ≠ .starved)
     (h0 : AtExecutor s ∨ HasFailure s.net ∨ HasFailure s.ctrlInbox) :
-    (runSchedule Gen.healthTable s sched).ctrl.status ≠ .running :=
-  Aux.never_hangs_of_allRaise Aux.health_all_raise s sched hf (Or.inr h0)
+    Ended (runSchedule Gen.healthTable s sched) :=
+  Aux.ended_of (Aux.never_hangs_of_allRaise Aux.health_all_raise s sched hf (Or.inr h0))
+    (Aux.sched_notStarved Gen.healthTable sched s hns)
 
 /-- NO WRONG VALUE. Along every schedule `state.outputs` is only ever written from a payload the controller
 has read (with C01: the payload carries the dataset's value), and a run that ends without an error has a
@@ -674,61 +963,178 @@ theorem c05_no_wrong_value (s0 : Sys) (sched : List Step) (hrun : s0.ctrl.status
   have := List.any_eq_false.1 hm d hd
   exact Aux.lookup_some_mem (by simpa using this)
 
-/-- TEARDOWN. `terminate` is idempotent; it addresses every child: each started worker is sent
-WorkerShutdown and joined (and killed if it was alive but stuck), a live shm server is shut down, a live
-data server is killed; afterwards no child is alive. -/
-theorem c05_teardown (st : ExecSt) :
-    terminate (terminate st).2 = ([], (terminate st).2) ∧
+/-- what the teardown theorem ASSUMES of the OS: `kill()` followed by `join()` leaves the process with an exit code
+(SIGKILL cannot be caught; `join` sees the exit) -/
+def KillWorks (os : Os) : Prop := os.killed.isSome = true
+
+/-- TEARDOWN. In ANY environment in which SIGKILL works — whatever the workers and the shm server do with the
+shutdown requests they are sent: exit, ignore them, answer and stay — `terminate` is idempotent; it addresses every
+child: each started worker is sent WorkerShutdown and joined for the grace, and killed if it is still alive then; a live
+shm server is sent the shutdown command and killed if it does not answer or does not exit within the grace; a live data
+server is killed; afterwards no child is alive. Only `KillWorks` is assumed of the environment (`c05_teardown_needs_kill`:
+it cannot be dropped — the effect is not built into the program). -/
+theorem c05_teardown (os : Os) (hk : KillWorks os) (st : ExecSt) :
+    terminateWith os (terminateWith os st).2 = ([], (terminateWith os st).2) ∧
     (st.terminating = false →
       (∀ w e s, (w, Handle.proc e s) ∈ st.workers →
-        TermAct.workerShutdown w ∈ (terminate st).1 ∧ TermAct.workerJoin w ∈ (terminate st).1 ∧
-        (e = none → s = true → TermAct.workerKill w ∈ (terminate st).1)) ∧
-      (st.shm = none → TermAct.shmShutdown ∈ (terminate st).1) ∧
-      (st.data = none → TermAct.dataKill ∈ (terminate st).1) ∧
-      (∀ w h, (w, h) ∈ (terminate st).2.workers → h = .notStarted ∨ ∃ c s, h = .proc (some c) s) ∧
-      (terminate st).2.shm.isSome = true ∧ (terminate st).2.data.isSome = true) := by
+        TermAct.workerShutdown w ∈ (terminateWith os st).1 ∧ TermAct.workerJoin w ∈ (terminateWith os st).1 ∧
+        (e = none → os.workerExit s = none → TermAct.workerKill w ∈ (terminateWith os st).1)) ∧
+      (st.shm = none → TermAct.shmShutdown ∈ (terminateWith os st).1 ∧
+        ((os.shmReply st.shmMode = false ∨ (os.shmExit st.shmMode st.segments).2 = none) → TermAct.shmKill ∈ (terminateWith os st).1)) ∧
+      (st.data = none → TermAct.dataKill ∈ (terminateWith os st).1) ∧
+      (∀ w h, (w, h) ∈ (terminateWith os st).2.workers → h = .notStarted ∨ ∃ c s, h = .proc (some c) s) ∧
+      (terminateWith os st).2.shm.isSome = true ∧ (terminateWith os st).2.data.isSome = true) := by
   constructor
-  · unfold terminate
-    by_cases ht : st.terminating = true <;> simp [ht]
+  · exact Aux.terminateWith_of_terminating os _ (Aux.terminateWith_terminating os st)
   · intro hnt
-    unfold terminate
+    obtain ⟨s1, s2⟩ := Aux.termShm_spec os hk st
+    obtain ⟨d1, d2⟩ := Aux.termData_spec os hk st
+    unfold terminateWith
     simp only [hnt, Bool.false_eq_true, if_false]
-    refine ⟨fun w e s hmem => ?_, fun hs => ?_, fun hd => ?_, fun w h hmem => ?_, by simp, by simp⟩
-    · obtain ⟨a1, a2, a3⟩ := Aux.termWorker_acts w e s
-      have hin : ∀ a, a ∈ (termWorker (w, .proc e s)).1 → a ∈ (st.workers.map termWorker).flatMap (·.1) := by
+    refine ⟨fun w e s hmem => ?_, fun hs => ?_, fun hd => ?_, fun w h hmem => ?_, s1, d1⟩
+    · obtain ⟨a1, a2, a3⟩ := Aux.termWorker_acts os w e s
+      have hin : ∀ a, a ∈ (termWorkerWith os (w, .proc e s)).1 → a ∈ (st.workers.map (termWorkerWith os)).flatMap (·.1) := by
         intro a ha
         rw [List.mem_flatMap]
-        exact ⟨termWorker (w, .proc e s), List.mem_map_of_mem hmem, ha⟩
+        exact ⟨termWorkerWith os (w, .proc e s), List.mem_map_of_mem hmem, ha⟩
       exact ⟨List.mem_append_left _ (List.mem_append_left _ (hin _ a1)),
              List.mem_append_left _ (List.mem_append_left _ (hin _ a2)),
              fun h1 h2 => List.mem_append_left _ (List.mem_append_left _ (hin _ (a3 h1 h2)))⟩
-    · simp [hs]
-    · simp [hd]
+    · obtain ⟨b1, b2⟩ := s2 hs
+      exact ⟨List.mem_append_left _ (List.mem_append_right _ b1), fun h => List.mem_append_left _ (List.mem_append_right _ (b2 h))⟩
+    · exact List.mem_append_right _ (d2 hd)
     · simp only [List.map_map, List.mem_map] at hmem
       obtain ⟨p, _, hp⟩ := hmem
-      have := Aux.termWorker_dead p
-      have h2 : (termWorker p).2.2 = h := by
+      have := Aux.termWorker_dead os hk p
+      have h2 : (termWorkerWith os p).2.2 = h := by
         have := congrArg Prod.snd hp; simpa using this
       rw [h2] at this; exact this
 
-/-- SEGMENTS (partial). After `terminate` no shared-memory segment of the host remains, PROVIDED the shm
-server was still alive (it is asked to shut down and unlinks everything) or had died through SIGTERM
-(its handler unlinks everything). Excluded class: the shm server was SIGKILLed — see
-`c05_segments_full_fails` (known finding C05-shm-sigkill-leak). -/
-theorem c05_segments_partial (st : ExecSt) (hnt : st.terminating = false) :
-    (st.shm = none → (terminate st).2.segments = []) ∧
-    (terminate (shmDies st .sigterm)).2.segments = [] := by
-  constructor
-  · intro h; simp [terminate, hnt, h]
-  · simp [terminate, shmDies, hnt]
-
-/-- SEGMENTS (full statement fails). Witness: the shm server is SIGKILLed while it holds a segment; nobody
-unlinks the segment, `terminate` included. -/
-theorem c05_segments_full_fails :
-    ¬ ∀ (st : ExecSt) (how : ShmDeath), st.terminating = false → (terminate (shmDies st how)).2.segments = [] := by
+/-- the hypothesis of `c05_teardown` is needed: in an environment where a killed process does not go away, a stuck
+worker is still alive after `terminate` -/
+theorem c05_teardown_needs_kill :
+    ¬ ∀ (os : Os) (st : ExecSt), st.terminating = false →
+      ∀ w h, (w, h) ∈ (terminateWith os st).2.workers → h = .notStarted ∨ ∃ c s, h = .proc (some c) s := by
   intro h
-  have := h { host := "h0", workers := [], shm := none, data := none, terminating := false, segments := ["sCasch0ab"] } .sigkill rfl
-  simp [terminate, shmDies] at this
+  have := h { posix with killed := none }
+    { host := "h0", workers := [("h0.w0", .proc none true)], shm := none, data := none, terminating := false } rfl
+    "h0.w0" (.proc none true) (by simp [terminateWith, termWorkerWith, posix])
+  simp at this
+
+/-- the standard environment satisfies the hypothesis: the `terminate` used by `tick` leaves no child alive -/
+theorem c05_teardown_std (st : ExecSt) (hnt : st.terminating = false) :
+    (∀ w h, (w, h) ∈ (terminate st).2.workers → h = .notStarted ∨ ∃ c s, h = .proc (some c) s) ∧
+    (terminate st).2.shm.isSome = true ∧ (terminate st).2.data.isSome = true ∧ (terminate st).2.terminating = true := by
+  obtain ⟨_, h⟩ := c05_teardown posix rfl st
+  obtain ⟨_, _, _, h4, h5, h6⟩ := h hnt
+  exact ⟨h4, h5, h6, Aux.terminateWith_terminating posix st⟩
+
+/-- the live shm server reacts to the shutdown command as the server of the SOURCE TREE does (table generated from
+shm/server.py): it answers, and what happens then is `shmShutdown` -/
+def ShmConforms (os : Os) (st : ExecSt) : Prop :=
+  os.shmReply st.shmMode = true ∧ os.shmExit st.shmMode st.segments = shmShutdown Gen.shmEntry st.segments
+
+/-- SEGMENTS (partial). After `terminate` no shared-memory segment of the host remains, PROVIDED the shm
+server was still alive and reacts as the source tree's server (it is asked to shut down, leaves its loop, `entrypoint`
+runs the exit handler, which unlinks everything — the generated fact `Aux.shm_entry_clean`; it is not killed), had died
+through SIGTERM (its handler unlinks everything) or had died because its request loop raised (`entrypoint` catches the
+exception and runs the exit handler). Holds in any environment. Excluded classes: the shm server was SIGKILLed, or it
+did not answer / exit and `terminate` had to kill it — see `c05_segments_full_fails` (known finding
+C05-shm-sigkill-leak). -/
+theorem c05_segments_partial (os : Os) (st : ExecSt) (hnt : st.terminating = false) :
+    (st.shm = none → ShmConforms os st →
+      (terminateWith os st).2.segments = [] ∧ (terminateWith os st).2.shm = some 0 ∧ TermAct.shmKill ∉ (terminateWith os st).1) ∧
+    (terminateWith os (shmDies Gen.shmEntry st .sigterm)).2.segments = [] ∧
+    (terminateWith os (shmDies Gen.shmEntry st .loopException)).2.segments = [] := by
+  refine ⟨?_, ?_, ?_⟩
+  · intro h ⟨hr, he⟩
+    have hsd : shmShutdown Gen.shmEntry st.segments = ([], some 0) := by
+      simp [shmShutdown, show Gen.shmEntry.shutdownBreaks = true by decide,
+        show Gen.shmEntry.cleansOn .returned = true by decide, show Gen.shmEntry.codeOn .returned = 0 by decide]
+    rw [hsd] at he
+    have hw : ∀ a, a ∈ (st.workers.map (termWorkerWith os)).flatMap (·.1) → a ≠ TermAct.shmKill := by
+      intro a ha
+      rw [List.mem_flatMap] at ha
+      obtain ⟨r, hr', ha'⟩ := ha
+      rw [List.mem_map] at hr'
+      obtain ⟨⟨w, hd⟩, _, rfl⟩ := hr'
+      cases hd with
+      | notStarted => simp [termWorkerWith] at ha'
+      | proc e s =>
+        cases e with
+        | some c => simp [termWorkerWith] at ha'; rcases ha' with rfl | rfl <;> simp
+        | none =>
+          simp only [termWorkerWith] at ha'
+          cases hwe : os.workerExit s <;> rw [hwe] at ha' <;> simp at ha' <;> rcases ha' with rfl | rfl | rfl | rfl <;> simp
+    have hd : ∀ a, a ∈ (termDataWith os st).1 → a ≠ TermAct.shmKill := by
+      intro a ha; unfold termDataWith at ha; cases hdd : st.data <;> rw [hdd] at ha <;> simp at ha; subst ha; simp
+    have hsh : termShmWith os st = ([.shmShutdown, .shmJoin], some 0, []) := by
+      simp [termShmWith, h, hr, he]
+    unfold terminateWith
+    simp only [hnt, Bool.false_eq_true, if_false, hsh]
+    refine ⟨trivial, trivial, ?_⟩
+    intro hin
+    rcases List.mem_append.1 hin with hin | hin
+    · rcases List.mem_append.1 hin with hin | hin
+      · exact hw _ hin rfl
+      · simp at hin
+    · exact hd _ hin rfl
+  · exact Aux.terminate_keeps_segments_nil os _ (Aux.shmDies_dead _ st _) (Aux.shmDies_segments _ Aux.shm_entry_clean st _ (by decide))
+  · exact Aux.terminate_keeps_segments_nil os _ (Aux.shmDies_dead _ st _) (Aux.shmDies_segments _ Aux.shm_entry_clean st _ (by decide))
+
+/-- SEGMENTS, every death but SIGKILL: whichever way the shm server of the source tree dies while its executor
+lives — SIGTERM, SIGINT, an exception out of its request loop — its segments are gone when it has exited, and
+stay gone through `terminate` (any environment). -/
+theorem c05_segments_all_but_sigkill (os : Os) (st : ExecSt) (how : ShmDeath) (hk : how ≠ .sigkill) :
+    (shmDies Gen.shmEntry st how).segments = [] ∧ (terminateWith os (shmDies Gen.shmEntry st how)).2.segments = [] :=
+  ⟨Aux.shmDies_segments _ Aux.shm_entry_clean st how hk,
+   Aux.terminate_keeps_segments_nil os _ (Aux.shmDies_dead _ st _) (Aux.shmDies_segments _ Aux.shm_entry_clean st how hk)⟩
+
+/-- SHM REQUEST LOOP RAISES. One undecodable datagram (or a failing `respond`) ends the server process: with the
+table of the source tree it exits with code 0 after unlinking everything, the executor's next healthcheck reports
+the dead child (exit code 0 counts), hence the same recv_loop iteration sends a failure-class message. -/
+theorem c05_shm_loop_exception_fails_run (st : ExecSt) (inbox : List EMsg) (hnt : st.terminating = false) :
+    let st' := shmDies Gen.shmEntry st .loopException
+    st'.shm = some 0 ∧ st'.segments = [] ∧
+    (healthcheck Gen.healthTable st').isSome = true ∧
+    HasFailure ((tick Gen.healthTable st' inbox).2.filterMap EOut.ctrl?) := by
+  refine ⟨by simp [shmDies, show Gen.shmEntry.codeOn .raised = 0 by decide], Aux.shmDies_segments _ Aux.shm_entry_clean st _ (by decide), ?_, ?_⟩
+  · exact c05_detects _ (Or.inr (Or.inl (Aux.shmDies_dead _ st _)))
+  · exact c05_tick_reports _ inbox (by rw [Aux.shmDies_terminating]; exact hnt)
+      (Or.inr (Or.inr (Or.inl (Aux.shmDies_dead _ st _))))
+
+/-- every death of the shm server (SIGKILL included) is a dead child the healthcheck reports -/
+theorem c05_shm_death_detected (st : ExecSt) (how : ShmDeath) :
+    (healthcheck Gen.healthTable (shmDies Gen.shmEntry st how)).isSome = true :=
+  c05_detects _ (Or.inr (Or.inl (Aux.shmDies_dead _ st how)))
+
+/-- the step the standard environment takes for a live shm server in mode `ok` (segments gone, exit code 0) IS what
+the server of the source tree does on the shutdown command: `break` out of the loop, `entrypoint` goes on to the exit
+handler. Hence the `terminate` used by `tick` leaves no segment when the shm server was alive and responsive. -/
+theorem c05_terminate_matches_shm_server (st : ExecSt) (hnt : st.terminating = false) (hs : st.shm = none) (hm : st.shmMode = .ok) :
+    ShmConforms posix st ∧ (terminate st).2.segments = [] ∧ (terminate st).2.shm = some 0 := by
+  have h : shmShutdown Gen.shmEntry st.segments = ([], some 0) := by
+    simp [shmShutdown, show Gen.shmEntry.shutdownBreaks = true by decide,
+      show Gen.shmEntry.cleansOn .returned = true by decide, show Gen.shmEntry.codeOn .returned = 0 by decide]
+  have hc : ShmConforms posix st := by
+    refine ⟨by simp [posix, hm], ?_⟩
+    rw [h]; simp [posix, hm]
+  obtain ⟨h1, h2, _⟩ := (c05_segments_partial posix st hnt).1 hs hc
+  exact ⟨hc, h1, h2⟩
+
+/-- SEGMENTS (full statement fails). Witnesses: (1) the shm server is SIGKILLed while it holds a segment; nobody
+unlinks the segment, `terminate` included. (2) the shm server does not answer the shutdown command (frozen, or killed
+between reading and answering it): `terminate` kills it after the grace — the executor exits, the segment stays. -/
+theorem c05_segments_full_fails :
+    (¬ ∀ (st : ExecSt) (how : ShmDeath), st.terminating = false → (terminate (shmDies Gen.shmEntry st how)).2.segments = []) ∧
+    (¬ ∀ (st : ExecSt), st.terminating = false → st.shm = none → (terminate st).2.segments = []) := by
+  constructor
+  · intro h
+    have := h { host := "h0", workers := [], shm := none, data := none, terminating := false, segments := ["sCasch0ab"] } .sigkill rfl
+    simp [terminate, terminateWith, termShmWith, shmDies] at this
+  · intro h
+    have := h { host := "h0", workers := [], shm := none, data := none, terminating := false, segments := ["sCasch0ab"], shmMode := .mute } rfl rfl
+    simp [terminate, terminateWith, termShmWith, posix] at this
 
 /-! ## non-vacuity -/
 
@@ -762,7 +1168,27 @@ example : (runSchedule Gen.healthTable exSysHealthy [.tick, .deliver, .ctrl]).ct
 example : (runSchedule Gen.healthTable exSysDone [.tick, .deliver, .ctrl, .ctrl]).ctrl.status = .endedOk := by decide
 example : (runSchedule Gen.healthTable exSysDone [.tick, .deliver, .ctrl, .ctrl]).ctrl.outputs = [("sink|o", 51)] := by decide
 example : (terminate exSt).1 = [.workerShutdown "h0.w0", .workerJoin "h0.w0", .workerShutdown "h0.w1", .workerJoin "h0.w1", .shmShutdown, .shmJoin, .dataKill] := by decide
+/-- a shm server that never answers the shutdown command is killed after the grace; one that answers but lingers is joined, then killed -/
+example : (terminate { exSt with shmMode := .mute }).1 = [.workerShutdown "h0.w0", .workerJoin "h0.w0", .workerShutdown "h0.w1", .workerJoin "h0.w1", .shmShutdown, .shmKill, .shmJoin, .dataKill] := by decide
+example : ((terminate { exSt with shmMode := .lingers }).1.drop 4) = [.shmShutdown, .shmJoin, .shmKill, .shmJoin, .dataKill] := by decide
+example : (terminate { exSt with shmMode := .mute }).2.shm = some (-9) := by decide
 example : workerBody "w" [] (.systemExit 3) = ⟨[], some 3⟩ := rfl
 example : workerBody "w" [] .raisesException = ⟨[.taskFailure "w"], none⟩ := rfl
+
+
+/-- the shm server holds two segments when a datagram it cannot decode arrives -/
+def exShm : ExecSt := { exHealthy with segments := ["sCasch0aa", "sCasch0bb"] }
+example : (shmDies Gen.shmEntry exShm .loopException).segments = [] := by decide
+example : (shmDies Gen.shmEntry exShm .loopException).shm = some 0 := by decide
+/-- a server whose `entrypoint` runs the exit handler only in the `else:` of the try around `start()` (table row
+`raised` without atexit) leaves both segments behind on that death — and only on that one: the hypothesis
+`Aux.shm_entry_clean` is not vacuous -/
+def exEntryElse : ShmEntry := { Gen.shmEntry with rows := [⟨.returned, true, true⟩, ⟨.raised, true, false⟩] }
+example : entryClean exEntryElse = false := by decide
+example : (terminate (shmDies exEntryElse exShm .loopException)).2.segments = ["sCasch0aa", "sCasch0bb"] := by decide
+example : (terminate (shmDies exEntryElse exShm .sigterm)).2.segments = [] := by decide
+example : shmShutdown exEntryElse exShm.segments = ([], some 0) := by decide
+/-- an exception that is not caught at all: exit code 1, still detected -/
+example : (shmDies { Gen.shmEntry with rows := [⟨.returned, true, true⟩] } exShm .loopException).shm = some 1 := by decide
 
 end EkwVerif.C05
